@@ -139,13 +139,14 @@ class World(object):
             f = fut.f
             gate = f[0]; op = f[1]; obj = f[2]; tok = f[3]
             gk = gate.val if gate.op == 'c' else None; opk = op.val; objk = obj.val
-            opened = TRUE if gk == 9999 else s.ghost.get('gate%d' % gk, FALSE)
+            opened = TRUE if gk == 99 else s.ghost.get('gate%d' % gk, FALSE)
             fin = And(g, opened)
             # completing: leave the object
             occ = s.ghost.get('occ%d' % objk, ZERO)
             s.ghost['occ%d' % objk] = Ite(And(fin, Ugt(occ, ZERO)), Sub(occ, ONE), occ)
             s.gset('end%d' % opk, BV(mm.now), fin, NONE_T)
             mm.store(r.proj(('f', 4)), TRUE, fin)
+            if 5 in f and isinstance(f[5], Ref): touch(mm, th, [f[5], BV(opk)], g)
             pend = And(g, Not(opened))
             if pend is not FALSE:
                 cx = mm.load(a[1], g)
@@ -204,6 +205,41 @@ class World(object):
         R('__fut_polled', fut_polled)
         R('__fut_dropped', lambda mm, th, a, g: (s.gset('fdropped%d' % a[0].val, BV(mm.now), g, NONE_T), UNIT)[1])
         R('__resumed', lambda mm, th, a, g: (s.gset('resumed%d' % a[0].val, BV(mm.now), g, NONE_T), UNIT)[1])
+        def touch(mm, th, a, g):
+            ref = a[0]; op = a[1].val
+            if not isinstance(ref, Ref): return UNIT
+            for x, c, p in ref.tg:
+                fr = mm.freed.get(c.id) if not hasattr(c, 'tid') else None
+                if fr is not None: mm.violate('use-after-free:value:op%d' % op, And(g, x, fr))
+            v = mm.load(ref, g)
+            if isinstance(v, St) and isinstance(v.f.get(0), E):
+                mm.violate('use-after-drop:value:op%d' % op, And(g, Not(v.f[0])))
+            return UNIT
+        R('__touch', touch)
+        def canary_drop(mm, th, a, g):
+            v = mm.load(a[0], g)
+            if not isinstance(v, St): return UNIT
+            cid = v.f[1].val if isinstance(v.f.get(1), E) and v.f[1].op == 'c' else 0
+            n = s.ghost.get('ndrop%d' % cid, ZERO)
+            mm.violate('value-dropped-twice:canary%d' % cid, And(g, Ugt(n, ZERO)))
+            s.ghost['ndrop%d' % cid] = Ite(And(g, Ult(n, BV(3))), Add(n, ONE), n)
+            s.gset('freed_at%d' % cid, BV(mm.now), g, NONE_T)
+            mm.store(a[0].proj(('f', 0)), FALSE, g)
+            return UNIT
+        R('__canary_drop', canary_drop)
+        R('__drop_begin', lambda mm, th, a, g: (s.gset('dropbegin%d' % a[0].val, BV(mm.now), g, NONE_T), UNIT)[1])
+        R('__drop_end', lambda mm, th, a, g: (s.gset('dropend%d' % a[0].val, BV(mm.now), g, NONE_T), UNIT)[1])
+        def give(mm, th, a, g):
+            k = a[0].val
+            s.ghost['slotval%d' % k] = merge(g, a[1], s.ghost.get('slotval%d' % k))
+            s.gset('slotfull%d' % k, TRUE, g, FALSE); return UNIT
+        R('__give', give, visible=True)
+        def take_en(mm, th, a, ph, g): return s.ghost.get('slotfull%d' % a[0].val, FALSE)
+        def take_(mm, th, a, g):
+            k = a[0].val
+            s.gset('slotfull%d' % k, FALSE, g, FALSE)
+            return s.ghost.get('slotval%d' % k)
+        R('__take', take_, visible=True, enabled=take_en)
         def vec_elem_ref(mm, th, a, g): return a[0].proj(('f', a[1].val))
         R('__vec_elem_ref', vec_elem_ref)
         def vec_compact(mm, th, a, g):
@@ -239,13 +275,13 @@ class World(object):
             b += 2
         L += ['    bb%d: {' % b, '        return;', '    }', '}', '']
         T.append('\n'.join(L))
-        opid = 0; ntasks = [0]
+        opid = 0; ntasks = [0]; ncanary = [0]; s.canaries = getattr(s, 'canaries', {})
         s.thread_specs = []
         for ti, th in enumerate(sc['threads']):
             name = th['name']
             blocks = []     # list of (stmts, term)
             def emit(stmts, term): blocks.append((stmts, term))
-            loc = [20]; futvars = {}; resvars = {}
+            loc = [20]; futvars = {}; resvars = {}; dvars = {}
             def fresh():
                 loc[0] += 1; return loc[0]
             if th.get('final'):
@@ -333,6 +369,46 @@ class World(object):
                     emit(['_%d = move ((_%d as Ready).0: Result<QueueResumer, Canceled>)' % (a_, pr), '_%d = move ((_%d as Ok).0: QueueResumer)' % (b_, a_)],
                          ('_%d = queue_resumer::QueueResumer::resume(move _%d) -> [return: bb%d, unwind continue]' if op[2] == 'resume' else '_%d = mem::drop::<QueueResumer>(move _%d) -> [return: bb%d, unwind continue]') % (fresh(), b_, len(blocks) + 1))
                     emit([], '_%d = __resumed(const %d_usize) -> [return: bb%d, unwind continue]' % (fresh(), futvars[op[1]][1], len(blocks) + 1))
+                elif kind == 'd_new':
+                    dv = fresh(); cn = fresh()
+                    dvars[op[1]] = dv
+                    cid = ncanary[0]; ncanary[0] += 1
+                    s.canaries[op[1]] = cid
+                    emit(['_%d = Canary { alive: const true, id: const %d_usize }' % (cn, cid)],
+                         '_%d = desync::Desync::<Canary>::new(move _%d) -> [return: bb%d, unwind continue]' % (dv, cn, len(blocks) + 1))
+                elif kind in ('d_desync', 'd_sync', 'd_try_sync', 'd_future_desync'):
+                    dv = dvars[op[1]]; body = op[2] if len(op) > 2 else {}
+                    obj = 10 + s.canaries.get(op[1], 0)
+                    base = kind[2:]
+                    fk = body.get('fut', 'ready')
+                    s.ops[opid] = dict(thread=name, tid=None, obj=obj, kind=base, idx=oi, opid=opid, tindex=ti, probe=False, gated=isinstance(fk, tuple) and base == 'future_desync',
+                                       tok=40 + opid, var=body.get('as', 'f%d' % opid), wrapper=True)
+                    cl = 'scen:%s:%d' % (name, oi)
+                    c = fresh(); y = fresh(); r = fresh(); x = fresh(); dr = fresh()
+                    if base == 'future_desync':
+                        T.append(s.d_future_closure(name, oi, cl, obj, opid, fk, 40 + opid))
+                    else:
+                        T.append(s.d_job_closure(name, oi, cl, obj, opid, returns=(base != 'desync'), tok=40 + opid))
+                    emit(['_%d = {closure@%s} { }' % (c, cl), '_%d = &_%d' % (dr, dv)], '_%d = __op_inv(const %d_usize) -> [return: bb%d, unwind continue]' % (y, opid, len(blocks) + 1))
+                    meth = {'desync': 'desync', 'sync': 'sync', 'try_sync': 'try_sync', 'future_desync': 'future_desync'}[base]
+                    emit([], '_%d = desync::Desync::<Canary>::%s::<{closure@%s}>(copy _%d, move _%d) -> [return: bb%d, unwind continue]' % (r, meth, cl, dr, c, len(blocks) + 1))
+                    if base == 'future_desync':
+                        futvars[s.ops[opid]['var']] = (r, opid, 'future_desync')
+                        emit([], '_%d = __op_ret(const %d_usize) -> [return: bb%d, unwind continue]' % (x, opid, len(blocks) + 1))
+                    else:
+                        emit([], '_%d = __op_done(const %d_usize, move _%d) -> [return: bb%d, unwind continue]' % (x, opid, r, len(blocks) + 1))
+                    opid += 1
+                elif kind == 'd_drop':
+                    dv = dvars[op[1]]
+                    emit([], '_%d = __drop_begin(const %d_usize) -> [return: bb%d, unwind continue]' % (fresh(), s.canaries[op[1]], len(blocks) + 1))
+                    emit([], '_%d = mem::drop::<Desync<Canary>>(move _%d) -> [return: bb%d, unwind continue]' % (fresh(), dv, len(blocks) + 1))
+                    emit([], '_%d = __drop_end(const %d_usize) -> [return: bb%d, unwind continue]' % (fresh(), s.canaries[op[1]], len(blocks) + 1))
+                elif kind == 'd_give':
+                    dv = dvars[op[1]]
+                    emit([], '_%d = __give(const %d_usize, move _%d) -> [return: bb%d, unwind continue]' % (fresh(), op[2], dv, len(blocks) + 1))
+                elif kind == 'd_take':
+                    dv = fresh(); dvars[op[2]] = dv
+                    emit([], '_%d = __take(const %d_usize) -> [return: bb%d, unwind continue]' % (dv, op[1], len(blocks) + 1))
                 else: raise EncodeError('scenario op ' + kind)
             emit([], 'return')
             L = ['fn scen::thread_%s(%s) -> () {' % (name, ', '.join('_%d: &Arc<JobQueue>' % (1 + q) for q in range(nq)))]
@@ -361,6 +437,15 @@ fn scen::GateFut::drop(_1: &mut GateFut) -> () {
     }
 }
 ''')
+        T.append('''fn scen::Canary::drop(_1: &mut Canary) -> () {
+    bb0: {
+        _0 = __canary_drop(copy _1) -> [return: bb1, unwind continue];
+    }
+    bb1: {
+        return;
+    }
+}
+''')
         # pool thread main: runs the closure given to Builder::spawn
         T.append('''fn scen::pool_main(_1: F) -> () {
     bb0: {
@@ -380,6 +465,7 @@ fn scen::GateFut::drop(_1: &mut GateFut) -> () {
                 f.origin = 'scenario'; s.prog.add_fn(f)
         s.prog.traitm[('Future', 'GateFut', 'poll')] = s.prog.byname['scen::GateFut::poll']
         s.prog.drops['GateFut'] = s.prog.byname['scen::GateFut::drop']
+        s.prog.drops['Canary'] = s.prog.byname['scen::Canary::drop']
         # threads
         init = m.add_thread('init', s.prog.byname['scen::init'], [])
         init.role = 'init'
@@ -402,7 +488,7 @@ fn scen::GateFut::drop(_1: &mut GateFut) -> () {
             op['tid'] = [t.tid for t in m.threads if t.name == op['thread']][0]
     def future_closure(s, tname, oi, cl, obj, opid, fk, tok):
         """closure passed to future_desync/future_sync: enters the object and returns the user future (ready, or pending on a gate)"""
-        gate = fk[1] if isinstance(fk, tuple) else 9999
+        gate = fk[1] if isinstance(fk, tuple) else 99
         return '''fn scen::thread_%s::{closure#%d}(_1: {closure@%s}) -> GateFut {
     bb0: {
         _2 = __enter(const %d_usize, const %d_usize) -> [return: bb1, unwind continue];
@@ -413,6 +499,50 @@ fn scen::GateFut::drop(_1: &mut GateFut) -> () {
     }
 }
 ''' % (tname, oi, cl, obj, opid, gate, opid, obj, tok)
+    def d_job_closure(s, tname, oi, cl, obj, opid, returns, tok):
+        """closure given to Desync::{desync,sync,try_sync}: touches the protected value at entry and exit"""
+        return '''fn scen::thread_%s::{closure#%d}(_1: {closure@%s}, _2: &mut Canary) -> %s {
+    bb0: {
+        _3 = __enter(const %d_usize, const %d_usize) -> [return: bb1, unwind continue];
+    }
+    bb1: {
+        _4 = __touch(copy _2, const %d_usize) -> [return: bb2, unwind continue];
+    }
+    bb2: {
+        _5 = __yield() -> [return: bb3, unwind continue];
+    }
+    bb3: {
+        _6 = __touch(copy _2, const %d_usize) -> [return: bb4, unwind continue];
+    }
+    bb4: {
+        _7 = __exit(const %d_usize, const %d_usize) -> [return: bb5, unwind continue];
+    }
+    bb5: {
+%s        return;
+    }
+}
+''' % (tname, oi, cl, 'u32' if returns else '()', obj, opid, opid, opid, obj, opid, ('        _0 = const %d_u32;\n' % tok) if returns else '')
+    def d_future_closure(s, tname, oi, cl, obj, opid, fk, tok):
+        gate = fk[1] if isinstance(fk, tuple) else 99
+        return '''fn scen::thread_%s::{closure#%d}(_1: {closure@%s}, _2: &mut Canary) -> Pin<Box<GateFut>> {
+    bb0: {
+        _3 = __enter(const %d_usize, const %d_usize) -> [return: bb1, unwind continue];
+    }
+    bb1: {
+        _4 = __touch(copy _2, const %d_usize) -> [return: bb2, unwind continue];
+    }
+    bb2: {
+        _5 = GateFut { gate: const %d_usize, op: const %d_usize, obj: const %d_usize, tok: const %d_u32, done: const false, data: copy _2 };
+        _6 = Box::<GateFut>::new(move _5) -> [return: bb3, unwind continue];
+    }
+    bb3: {
+        _0 = Pin::<Box<GateFut>>::new_unchecked(move _6) -> [return: bb4, unwind continue];
+    }
+    bb4: {
+        return;
+    }
+}
+''' % (tname, oi, cl, obj, opid, opid, gate, opid, obj, tok)
     def job_closure(s, tname, oi, cl, obj, opid, body, returns, tok):
         acts = body.get('acts', ['enter', 'yield', 'exit'])
         L = ['fn scen::thread_%s::{closure#%d}(_1: {closure@%s}) -> %s {' % (tname, oi, cl, 'u32' if returns else '()')]
